@@ -105,7 +105,8 @@ class Graph:
         """what command e writes to `out` when it reads `files` (dict path->content or missing)"""
         if out in s.ddtext: return s.ddtext[out]
         acc = (b'generator' if e.generator else e.eval_command().encode()) + b'\0' + out.encode() + b'\0'
-
+        for c in sorted(files.get(p, '<missing>').encode('latin1') for p in set(e.reads())):
+            acc += c + b'\0'
         return 'H:%016x' % fnv(acc)
     def clean_contents(s, sources):
         """contents of every buildable node after a from-scratch build of `sources` (dict)"""
